@@ -7,13 +7,17 @@ for the outcome with a timeout; when the watchdog fires the whole process group 
 `timeout` — the failing schedule of the property ("never hangs").  Several cases run concurrently.
 
 A case is a JSON-able dict:
-    api     'parallelize' | 'do_trials'
+    api     'parallelize' | 'do_trials' | 'repeat'
     ncpu, n
     seed    int | None     seed of the RandomStateService passed as `rss` (None: no rss)
+    seeds   (api 'repeat') one call per seed on the *same* args_list object, fresh rss each time
+    interactive  bool      enable skyllh's interactive session (progress bar + status queue)
     plan    list of hook plan entries {where, pid, task, actions}
     msleep  {task index: seconds}   sleep inside the task function (how the master is made slow)
     boom    list of task indices whose task function raises ValueError
     logs    bool            every task emits one log record
+    summary bool            large runs: order/values are checked in the caller, only a summary comes back
+    watchdog float          watchdog time of this case (default: the global one)
 The outcome is a dict {out: 'done'|'error'|'timeout', res, etype, msg, wall, nlog}.
 """
 import json
@@ -28,7 +32,7 @@ WATCHDOG_S = float(os.environ.get('VERIF_C09_WATCHDOG', '10'))
 CONCURRENCY = int(os.environ.get('VERIF_C09_JOBS', '10'))
 
 
-def task_func(i, k=0, sleep=0.0, boom=False, log=False, rss=None):
+def task_func(i, k=0, sleep=0.0, boom=False, log=False, rss=None, tl=None):
     """The mapped function: returns (task number, a pure function of the arguments, os pid, a draw)."""
     if sleep:
         time.sleep(sleep)
@@ -85,12 +89,38 @@ def _child_main(case, wfd):
         lg.addHandler(H())
         lg.setLevel(logging.WARNING)
         from skyllh.core.random import RandomStateService
+        if case.get('interactive'):
+            from skyllh.core import session
+            session.enable_interactive_session()
+            os.dup2(devnull, 1)     # progress bar output
         rss = None if case.get('seed') is None else RandomStateService(int(case['seed']))
         try:
             if case.get('api', 'parallelize') == 'do_trials':
                 ana = _stub_analysis()
                 rec = ana.do_trials(rss, case['n'], ncpu=case['ncpu'], k=7)
                 res = [tuple(int(x) for x in row) for row in rec.tolist()]
+            elif case.get('api') == 'repeat':
+                # the same args_list object handed to parallelize several times, each time with a fresh
+                # RandomStateService of the listed seed; reference = a call on a newly built args_list
+                from skyllh.core.multiproc import parallelize
+
+                def build():
+                    return [((i,), {'k': 3 * i}) for i in range(case['n'])]
+                shared = build()
+                res, ref = [], []
+                for sd in case['seeds']:
+                    tl = None
+                    if case.get('tl'):
+                        from skyllh.core.timing import TimeLord
+                        tl = TimeLord()
+                    r = parallelize(task_func, shared, case['ncpu'], rss=RandomStateService(int(sd)), tl=tl)
+                    res.append([tuple(x) for x in r])
+                    r = parallelize(task_func, build(), case['ncpu'], rss=RandomStateService(int(sd)))
+                    ref.append([tuple(x) for x in r])
+                out = {'out': 'done', 'res': res, 'ref': ref, 'nlog': len(recs)}
+                data = pickle.dumps(out)
+                os.write(wfd, struct.pack('<I', len(data)) + data)
+                return
             else:
                 from skyllh.core.multiproc import parallelize
                 msleep = {int(k): v for k, v in (case.get('msleep') or {}).items()}
@@ -99,7 +129,12 @@ def _child_main(case, wfd):
                                       'log': bool(case.get('logs'))}) for i in range(case['n'])]
                 res = parallelize(task_func, args_list, case['ncpu'], rss=rss)
                 res = [tuple(r) if isinstance(r, (tuple, list)) else repr(r) for r in res]
-            out = {'out': 'done', 'res': res, 'nlog': len(recs), 'logmsgs': recs[:64]}
+            if case.get('summary'):
+                # large runs: check order and values here, send back a summary only
+                bad = [i for i, r in enumerate(res) if not (isinstance(r, tuple) and len(r) == 4 and r[0] == i and r[1] == i * i + 3 * i)][:3]
+                out = {'out': 'done', 'res_len': len(res), 'res_bad': bad, 'nlog': len(recs)}
+            else:
+                out = {'out': 'done', 'res': res, 'nlog': len(recs), 'logmsgs': recs[:64]}
         except BaseException as e:  # noqa  (also SystemExit/KeyboardInterrupt: anything that leaves the call)
             out = {'out': 'error', 'etype': type(e).__name__, 'msg': str(e)[:200], 'nlog': len(recs)}
         data = pickle.dumps(out)
@@ -197,7 +232,7 @@ def run_cases(cases, timeout=None, jobs=None, stop=None, on_result=None):
             outcomes[idx] = out
             if on_result is not None:
                 on_result(cases[idx], out)
-        for fd in [fd for fd, ent in active.items() if now - ent[2] > timeout]:
+        for fd in [fd for fd, ent in active.items() if now - ent[2] > float(cases[ent[0]].get('watchdog') or timeout)]:
             idx, pid, t0, buf = active.pop(fd)
             _kill_group(pid)
             os.close(fd)
